@@ -89,6 +89,8 @@ func (eng *Engine) verifyFunc(key string) *FuncReport {
 		ex.assume(True, g)
 	}
 	fr.entry = st.clone()
+	// ghost assignments of this function's own contract happen on entry
+	ex.applyGhostSets(st, c, ex.frameEnv(fr, fr.entry, fr.entry))
 	vals, out := ex.execBody(fr, st)
 	fr.results = vals
 	rep.ReachPC = out.pc
@@ -142,6 +144,11 @@ func (ex *Exec) frameObligations(fr *Frame, out *State, entry *State, mods []Mod
 					allowed[k] = append(allowed[k], ref)
 				}
 			}
+		}
+	}
+	if fr.contract != nil {
+		for _, gs := range fr.contract.GhostSets {
+			whole["GH:"+gs.Var] = true
 		}
 	}
 	if allowedAll {
